@@ -17,3 +17,4 @@ registry['C19'] = _lazy('c19')
 registry['C18'] = _lazy('c18')
 registry['C15'] = _lazy('c15')
 registry['C14'] = _lazy('c14')
+registry['C13'] = _lazy('c13')
